@@ -293,6 +293,14 @@ def shapes(tier, seed):
             'inc.asm': [('data', '.byte', [('lsb', V('v2')), C(7)]), ('instr', 'nop', None)]},
             cfgargs=dict(origin=Sym('o0', 0, 0x7000), consts={'v2': c02.SYMS['v2'], 'o0': (0, 0x7000)}),
             props=['C16'], binary=True, start=Sym('o0', 0, 0x7000), pretty=fmt, width=48))
+    # an origin set inside a muted region still places the unmuted bytes that follow it
+    for fmt in fmts:
+        S.append(PrettyShape(f'{fmt}:hand:org-in-muted-region', prog={'main.asm': [
+            ('data', '.byte', [C(1), ('lsb', V('v2'))]), ('mute',), ('org', ('+', V('o0'), C(0x20)), None), ('unmute',),
+            ('data', '.byte', [C(7), C(8)]), ('instr', 'nop', None), ('mute',), ('org', ('+', V('o0'), C(0x40)), None),
+            ('label', 'm'), ('unmute',), ('data', '.2byte', [L('m')])]},
+            cfgargs=dict(origin=Sym('o0', 0, 0x7000), consts={'v2': c02.SYMS['v2'], 'o0': (0, 0x7000)}),
+            props=['C16'], binary=True, start=Sym('o0', 0, 0x7000), pretty=fmt, width=48))
     # bytes that come from the ISA configuration (predefined data blocks) are in the image, hence in every format
     for fmt in fmts:
         blocks = [('blk', Sym('ba', 0x110, 0x112), 3, 0x5A), ('blk2', 0x130, 18, Sym('bv', 0, 255))]
